@@ -894,14 +894,16 @@ namespace
             const char* cls = i < m.size() ? "in_range" : (i < nblocks(m.size()) * W ? "in_slack_of_last_block" : "beyond_blocks");
             Scope sc(*this, st, "at", cls, t);
             if (i >= m.size() && i < nblocks(m.size()) * W) SIM_PROBE("at_in_slack_of_last_block");
-            bool threw = false, got = false, cgot = false;
+            bool threw = false, cthrew = false, got = false, cgot = false;
             with(t, [&](auto& x) {
                 const auto& cx = x;
-                try { got = static_cast<bool>(x.at(i)); cgot = static_cast<bool>(cx.at(i)); }
-                catch (const std::out_of_range&) { threw = true; }
+                // the non-const and the const overload are separate functions: each is judged on its own
+                try { got = static_cast<bool>(x.at(i)); } catch (const std::out_of_range&) { threw = true; }
+                try { cgot = static_cast<bool>(cx.at(i)); } catch (const std::out_of_range&) { cthrew = true; }
             });
             bool want_throw = i >= m.size();
             if (threw != want_throw) viol("model", "at-range", std::string("at(") + std::to_string(i) + ") " + (threw ? "threw" : "did not throw") + " for a bitset of " + std::to_string(m.size()) + " bits");
+            if (cthrew != want_throw) viol("model", "at-range", std::string("const at(") + std::to_string(i) + ") " + (cthrew ? "threw" : "did not throw") + " for a bitset of " + std::to_string(m.size()) + " bits");
             if (!threw && (got != m[i] || cgot != m[i])) viol("model", "ret", "at(i) returned the wrong bit");
             check_all();
         }
